@@ -82,6 +82,25 @@ def h_operator(P, op, n, d=1):
     _frame(P, snap, op)
 
 
+def h_de_crossover(P, n=1, d=1):
+    """DE / SHADE crossover + evaluation on its own: a trial keeps its parent's fitness only if its genome is identical."""
+    from pyhms.core.population import Population
+    from pyhms.demes.single_pop_eas.de import Crossover
+
+    prob, F, maximize, bounds = mk_problem(P, d)
+    inds = mk_inds(P, prob, n, d, "p", fitness="F", F=F, bounds=bounds)
+    pop = Population.from_individuals(inds)
+    donors = P.floats("donor", (n, d), finite=True)
+    for idx in np.ndindex(n, d):
+        P.assume(land(donors[idx] >= bounds[idx[-1]][0], donors[idx] <= bounds[idx[-1]][1]))
+    mutated = Population(donors, P.np.full(n, np.nan) if False else np.full(n, np.nan), prob)
+    base = F.n_calls()
+    out = Crossover()(pop, mutated, 0.9)
+    out.evaluate()
+    for x in out.to_individuals():
+        P.oblige("de_crossover.fitness_is_objective_of_genome", _consistent(P, F, x))
+
+
 def h_engine(P, engine, n, d=1):
     from pyhms.demes.single_pop_eas import sea
     from pyhms.demes.single_pop_eas.de import DE
@@ -215,6 +234,8 @@ def cases(tier):
     for e in ("sea", "sea-xover", "ga", "sea-adaptive"):
         cs.append(dict(name=f"engine.{e}.n2", fn=h_engine, params=dict(engine=e, n=2), weight=10, **R))
     cs.append(dict(name="engine.de.n4", fn=h_engine, params=dict(engine="de", n=4), weight=30, **R))
+    cs.append(dict(name="operator.de_crossover.n1", fn=h_de_crossover, params=dict(n=1, d=1), **dict(R, portfolio=True, separate=True, cores=2)))
+    cs.append(dict(name="operator.de_crossover.n2.d2", fn=h_de_crossover, params=dict(n=2, d=2), **dict(R, portfolio=True, separate=True, cores=2)))
     if tier == "thorough":
         cs.append(dict(name="engine.de-dither.n4", fn=h_engine, params=dict(engine="de-dither", n=4), weight=30, **R))
         for e in ("sea", "ga"):
